@@ -53,6 +53,23 @@ fn gen_cfg(rng: &mut Rng) -> Gram {
         }
         rules.push(alts);
     }
+    // a quarter of the grammars get a symbol whose empty derivation goes through a rule that names the
+    // same nullable symbol twice (x: y y | t, y: t | empty), used twice so that it survives inlining
+    if rng.chance(1, 4) {
+        let y = rules.len();
+        let x = y + 1;
+        rules.push(vec![vec![Sym::T(rng.below(nlex))], vec![]]);
+        rules.push(vec![vec![Sym::N(y), Sym::N(y)], vec![Sym::T(rng.below(nlex))]]);
+        let t = Sym::T(rng.below(nlex));
+        match rng.below(3) {
+            0 => rules[0].push(vec![Sym::N(x), t]),
+            1 => rules[0].push(vec![Sym::N(x), t, Sym::N(x)]),
+            _ => rules[0].push(vec![t, Sym::N(x), Sym::N(y)]),
+        }
+        if rng.chance(1, 2) {
+            rules[0].push(vec![Sym::N(x)]);
+        }
+    }
     Gram { rules, lexemes }
 }
 
